@@ -550,15 +550,19 @@ theorem tcp_attemptRsp_unknown (tid : UInt16) (uid : UInt8) (pdu : Bytes) (c : U
     cases pdu with
     | nil => simp at h0
     | cons _ _ => simp
-  unfold Tcp.attemptRsp mkAttempt
-  rw [tcp_responsePduLen_eq]
-  have e := tcpFrame_split tid uid pdu rest
-  have : Spec.predict 7 .rsp (Spec.tcpFrame tid uid pdu ++ rest) = .reject := by
-    rw [e, predict_shift 7 .rsp _ _ rfl]
-    refine predict_reject (c := c) ?_ hu
-    rw [List.getElem?_append_left (by omega)]; exact h0
-  rw [this]
-  exact ⟨_, rfl⟩
+  -- either the header check rejects the candidate, or the predictor does (it looks at byte 7 only)
+  rcases Tcp.checkProtocolId_cases (Spec.tcpFrame tid uid pdu ++ rest) with hc | ⟨_, _, hc⟩
+  · rw [Tcp.attemptRsp_eq, Tcp.attemptOf_proto_ok _ hc]
+    unfold mkAttempt
+    rw [tcp_responsePduLen_eq]
+    have e := tcpFrame_split tid uid pdu rest
+    have : Spec.predict 7 .rsp (Spec.tcpFrame tid uid pdu ++ rest) = .reject := by
+      rw [e, predict_shift 7 .rsp _ _ rfl]
+      refine predict_reject (c := c) ?_ hu
+      rw [List.getElem?_append_left (by omega)]; exact h0
+    rw [this]
+    exact ⟨_, rfl⟩
+  · exact ⟨_, by rw [Tcp.attemptRsp_eq]; exact Tcp.attemptOf_proto_err _ hc⟩
 
 /-- **Exception frames outside the table, followed by ANY bytes.**  `F` = the encoded ADU of an exception
     response for a function value the length table does not list (0, or 0x2C … 0x7F: PDU byte 0x80 or
